@@ -441,7 +441,15 @@ type FuncSpec struct {
 	Uses     []*Clause
 }
 
+type GhostDecl struct {
+	Name   string
+	Param  string // type of the carrier (e.g. []int)
+	Elem   string // element / value type
+	Scalar bool
+}
+
 type SpecFile struct {
+	Ghosts map[string]*GhostDecl
 	Pkg    string
 	Funcs  map[string]*FuncSpec
 	Specs  map[string]*SpecFunc
@@ -453,7 +461,7 @@ var clauseKeywords = map[string]bool{
 	"func": true, "requires": true, "ensures": true, "modifies": true, "panics": true,
 	"loop": true, "invariant": true, "decreases": true, "assert": true, "opt": true,
 	"spec": true, "pred": true, "lemma": true, "by": true, "extern": true, "ghost": true,
-	"pattern": true, "opaque": true, "end": true, "use": true,
+	"pattern": true, "opaque": true, "end": true, "use": true, "ghostarray": true, "ghostval": true,
 }
 
 type rawLine struct {
@@ -619,7 +627,7 @@ func LoadSpecFile(path, pkg string) (sf *SpecFile, err error) {
 			err = fmt.Errorf("%s: %v", path, r)
 		}
 	}()
-	sf = &SpecFile{Pkg: pkg, Funcs: map[string]*FuncSpec{}, Specs: map[string]*SpecFunc{}}
+	sf = &SpecFile{Pkg: pkg, Funcs: map[string]*FuncSpec{}, Specs: map[string]*SpecFunc{}, Ghosts: map[string]*GhostDecl{}}
 	var cur *FuncSpec
 	var curLoop *LoopSpec
 	var curLemma *Lemma
@@ -672,6 +680,13 @@ func LoadSpecFile(path, pkg string) (sf *SpecFile, err error) {
 				f.Rec = exprCalls(e, name)
 			}
 			sf.Specs[name] = f
+		case "ghostarray", "ghostval":
+			cur, curLoop, curLemma = nil, nil, nil
+			name, params, ret, _ := parseSig(l.rest)
+			if len(params) != 1 {
+				panic(l.pos + ": ghost declaration needs one carrier parameter")
+			}
+			sf.Ghosts[name] = &GhostDecl{Name: name, Param: params[0].Type, Elem: strings.TrimSpace(ret), Scalar: l.kw == "ghostval"}
 		case "lemma":
 			cur, curLoop = nil, nil
 			name, params, _, _ := parseSig(l.rest)
